@@ -103,7 +103,8 @@ CHECKS["C01"] = dict(
 CHECKS["C02"] = dict(
     text="Theorems (same model and scope as C01): calculate() over ds ++ more extends calculate() over ds (batch causality: no "
          "look-ahead), appending to a calculated indicator leaves every existing candle and reading untouched (no repaint), and on a "
-         "collapsing timeframe every bucket but the last (open) one keeps its readings when more candles arrive; batch causality also for "
+         "collapsing timeframe every bucket but the last (open) one keeps its readings when more candles arrive - with gap filling too (closed "
+         "buckets and the fill candles between them); batch causality also for "
          "the composite ATR (parent over its helper series). "
          + ENGINE_TIE + "Falsifier: snapshot(t) minus the open bucket is a prefix of snapshot(t') on live appends, batch-on-prefix vs batch-on-whole.",
     note="Leaf indicators with discharged obligations (see C01); other kinds by correspondence + falsifier. Axioms: none.",
